@@ -210,7 +210,7 @@ pub fn run(_ctx: &Ctx, rep: &mut Report) {
                         for b in bad {
                             match confirm(judge, Case::new("pair", &[a as u64, b as u64])) {
                                 Some(v) => acc.violate(v),
-                                None => monitor::machinery_fail("C07 fast path mismatch not reproduced"),
+                                None => super::unreproduced("C07 fast path mismatch not reproduced"),
                             }
                         }
                         acc.viol_count += nbad.saturating_sub(3.min(nbad));
